@@ -72,7 +72,10 @@ pub fn page_lists(t: SignType, seed: u64) -> Vec<Vec<Page<'static>>> {
             pat.set_pixel(x, y, f[(x * h + y) as usize] % 3 == 0);
         }
     }
-    vec![vec![], vec![pat.clone()], vec![blank.clone(), on.clone()], vec![corners, pat, blank]]
+    // the last list repeats a page id (non-adjacent, different contents) and repeats a whole page (adjacent)
+    let mut corners1 = corners.clone();
+    corners1 = Page::from_bytes(w, h, { let mut b = corners1.as_bytes().to_vec(); b[0] = 1; b }).unwrap();
+    vec![vec![], vec![pat.clone()], vec![blank.clone(), on.clone()], vec![on, pat, corners1, blank.clone(), blank, corners]]
 }
 
 pub fn make_sys(type_idx: usize, automatic: bool, own_addr: u16, bystander: Option<u16>, rich: bool, seed: u64) -> C08Sys {
@@ -179,7 +182,11 @@ impl System for C08Sys {
         }
     }
     fn within_bounds(&self, s: &C08State) -> bool {
-        s.by_shadow.as_ref().map(|b| b.count <= 2 && b.buf.len() <= 32).unwrap_or(true) && s.shadow.buf.len() <= self.max_buf && s.shadow.count <= self.max_count && self.own_sign(&s.bus).pages().len() <= 3 && hashed_size(self.own_sign(&s.bus)) <= 512 + 5 * (self.max_buf as u64 + 64)
+        s.by_shadow.as_ref().map(|b| b.count <= 2 && b.buf.len() <= 32).unwrap_or(true) && s.shadow.buf.len() <= self.max_buf && s.shadow.count <= self.max_count && self.own_sign(&s.bus).pages().len() <= 6 && hashed_size(self.own_sign(&s.bus)) <= 512 + 8 * (self.max_buf as u64 + 64)
+    }
+    fn within_bounds_new(&self, s: &C08State) -> bool {
+        crate::signsys::hidden_chunk_counter(self.own_sign(&s.bus)).map(|c| c <= self.max_count as u64 + 2).unwrap_or(true)
+            && (self.bystander.is_none() || crate::signsys::hidden_chunk_counter(s.bus.sign(0)).map(|c| c <= 4).unwrap_or(true))
     }
     fn action_json(&self, a: usize) -> Value {
         match &self.actions[a] {
